@@ -226,6 +226,114 @@ def stage_t(chk, tier, bindir):
     return stats
 
 
+def stage_b(chk, tier, bindir):
+    """Buffered-WAL clause: multi-lifetime histories with wal.buffered = true, flush_each_write = false on 1 and 2
+    shards; TLC checks the clause on spec/WalBuffer.tla and judges the recorded histories with WalBufferTrace."""
+    import shutil
+    r = core.tlc("WalBuffer", "WalBuffer.cfg", workers=4, timeout=600, coverage=True)
+    core.tlc_ok(r, "WalBuffer")
+    for act in ("Store", "BufFlush", "Crash", "Shutdown"):
+        if r.action_cov.get(act, 0) == 0:
+            raise core.ToolError(f"vacuity: WalBuffer.{act} never taken")
+    rnd = random.Random(core.seed() + 4242)
+    runs = 8 if tier == "quick" else 60
+    recs = []
+    stats = Counter()
+    for ri in range(runs):
+        shards = 1 + ri % 2
+        routes = storage.probe_routing(bindir, shards) if shards > 1 else {0: ["p0", "p1", "p2"]}
+        ctx_shard = {c: sh for sh, cs in routes.items() for c in cs[:3]}
+        ctxs = sorted(ctx_shard)
+        root = core.WORK / "c01" / f"buf{ri}"
+        if root.exists():
+            shutil.rmtree(root)
+        root.mkdir(parents=True)
+        cap = rnd.choice([3, 4, 5])
+        cfg = {"root": str(root / "db"), "fill_factor": cap, "event_per_zone": 1, "shards": shards, "k": 2,
+               "wal_buffered": True, "wal_flush_each_write": False}
+        k = 0
+        durable = {sh: [] for sh in range(shards)}
+        lives = rnd.choice([3, 4])
+        pending = None
+        for li in range(lives + 1):
+            steps = []
+            if li == 0:
+                steps.append({"op": "cmd", "text": 'DEFINE a FIELDS { k: "int", ty: "string" }'})
+            steps.append({"op": "cmd", "text": "QUERY a", "tag": ["survivors"]})
+            applied = {sh: [] for sh in range(shards)}
+            end = None
+            if li < lives:
+                for _ in range(rnd.randint(2, 2 * cap + 2)):
+                    k += 1
+                    c = rnd.choice(ctxs)
+                    applied[ctx_shard[c]].append(k)
+                    steps.append({"op": "cmd", "text": f'STORE a FOR {c} PAYLOAD {{"k": {k}, "ty": "a"}}', "tag": ["store", k]})
+                # every STORE is applied (a read passes through each shard's mailbox behind them) and rotations are complete
+                steps.append({"op": "cmd", "text": "QUERY a", "tag": ["applied"]})
+                steps.append({"op": "flush_wait"})
+                end = "crash" if rnd.random() < 0.65 else "shutdown"
+                steps.append({"op": end})
+            rc, obs, err = core.run_vdrive(bindir, {"config": cfg, "out": str(root / f"o{li}.ndjson"), "steps": steps}, timeout=120)
+            want = (0,) if end in (None, "shutdown") else (-6, 134)
+            if rc not in want:
+                chk.violation(f"buffered-WAL run {ri}, lifetime {li} ended with {rc}: {err[-200:]}", {"run": ri, "lifetime": li})
+                break
+            surv, seen_all, acked = None, None, set()
+            for o in obs:
+                t = o.get("tag")
+                if t == ["survivors"] or t == ["applied"]:
+                    rows = storage.decode_rows(o)
+                    if t == ["survivors"]:
+                        surv = rows
+                    else:
+                        seen_all = rows
+                if isinstance(t, list) and t and t[0] == "store" and o.get("outcome") == "response" and o.get("status") == 200:
+                    acked.add(t[1])
+            if surv is None:
+                chk.violation(f"buffered-WAL run {ri}, lifetime {li}: QUERY after start-up failed", {"run": ri, "lifetime": li})
+                break
+            by_shard = {sh: [] for sh in range(shards)}
+            for (kk, c, _t, eid) in surv:
+                by_shard[(eid >> 12) & 0x3FF if shards > 1 else 0].append(kk)
+            if pending is not None:
+                for sh in range(shards):
+                    recs.append({"id": len(recs), "run": ri, "life": pending["life"], "shard": sh, "shards": shards, "cap": cap,
+                                 "durable": durable[sh], "applied": pending["applied"][sh], "end": pending["end"], "survivors": by_shard[sh]})
+                    stats["records"] += 1
+                    stats[f"end_{pending['end']}"] += 1
+                    if pending["end"] == "crash" and len(set(by_shard[sh]) - set(durable[sh])) < len(pending["applied"][sh]):
+                        stats["crash_lost_a_suffix"] += 1
+            durable = {sh: list(dict.fromkeys(by_shard[sh])) for sh in range(shards)}
+            if li < lives:
+                if any(kk not in acked for sh in applied for kk in applied[sh]):
+                    chk.violation(f"buffered-WAL run {ri}, lifetime {li}: a STORE was not acknowledged", {"run": ri, "lifetime": li})
+                    break
+                pending = {"life": li, "applied": applied, "end": end}
+        shutil.rmtree(root, ignore_errors=True)
+    trace = core.WORK / "c01" / "walbuffer.ndjson"
+    trace.parent.mkdir(parents=True, exist_ok=True)
+    trace.write_text("".join(json.dumps(x) + "\n" for x in recs))
+    if not recs:
+        raise core.ToolError("buffered-WAL stage recorded nothing")
+    t = core.tlc("WalBufferTrace", "WalBufferTrace.cfg", workers=1, env={"TRACE": str(trace)}, timeout=600, xss=True)
+    if t.error or t.rc != 0 or t.printed_int("JUDGED") != len(recs):
+        core.log(t.out[-2000:])
+        raise core.ToolError(f"WalBufferTrace failed: {t.error} rc={t.rc}")
+    names = {"TWICE": "an event is returned twice after the restart", "FOREIGN": "an event that was neither durable nor applied is returned",
+             "LOSTDURABLE": "an event that had survived an earlier restart is gone", "LOSTATSHUTDOWN": "a clean shutdown lost an applied event",
+             "NOTPREFIX": "the events that survived the crash are not a prefix of the shard's applied events"}
+    for tag, what in names.items():
+        ids = t.printed_last(tag)
+        if ids is None:
+            raise core.ToolError(f"WalBufferTrace printed no {tag}")
+        for i in ids:
+            x = recs[i]
+            chk.violation(f"buffered WAL, {x['shards']} shard(s), capacity {x['cap']}, lifetime {x['life']} ended by {x['end']}: {what} "
+                          f"(shard {x['shard']}: durable {x['durable']}, applied {x['applied']}, found {x['survivors']})", {"record": x})
+    chk.cov["buffered_wal"] = {"model_states": r.distinct, **dict(stats)}
+    return stats
+
+
 def run(tier):
     chk = core.Check(PROP, "model_checking", tier)
     bindir = core.build_harness(("vdrive",))
@@ -233,9 +341,12 @@ def run(tier):
     stage_r(chk, tier, bindir)
     st = stage_t(chk, tier, bindir)
     chk.cov["traces_validated_against_impl"] += st["trace_runs"]
+    sb = stage_b(chk, tier, bindir)
+    chk.cov["traces_validated_against_impl"] += sb["records"]
     chk.assumptions += [
         "process crash = abort(); OS/power loss, fsync and torn sector writes are out of scope",
         "applied = WAL drained (wal_flush_each_write = true); the window between memtable insert and WAL write is not judged",
+        "buffered WAL (stage B): histories of STORE / automatic rotation / crash / clean shutdown only (no manual FLUSH, no compaction, no crash inside a flush)",
         "one shard in the replayed behaviours; bounds: <= 3 restarts, 3 manual flushes, 3 compaction rounds per behaviour",
     ]
     return chk.finish()
